@@ -8,7 +8,7 @@ import asyncio
 import ssl
 from pathlib import Path
 
-from ..protocol.constants import MAX_REDIRECTS
+from ..protocol.constants import MAX_REDIRECTS, MAX_REQUEST_SIZE
 from ..protocol.response import GeminiResponse
 from ..protocol.status import is_redirect
 from ..security.certificates import get_certificate_fingerprint
@@ -177,6 +177,16 @@ class GeminiClient:
         """
         # Parse URL to get host and port
         parsed = parse_url(url)
+
+        # What goes on the wire is the normalised URL, which can be one byte
+        # longer than the URL as given (an empty path becomes "/"): that is the
+        # line that has to fit into the protocol's request size limit
+        wire_size = len(parsed.normalized.encode("utf-8")) + 2  # +2 for CRLF
+        if wire_size > MAX_REQUEST_SIZE:
+            raise ValueError(
+                f"URL too long: request line of {wire_size} bytes "
+                f"(max {MAX_REQUEST_SIZE} bytes)"
+            )
 
         # Get event loop
         loop = asyncio.get_running_loop()
